@@ -790,12 +790,14 @@ def run(chk):
         a, kw, v = c
         mono = kw['monoisotopic']
         first = pt.mass(a.copy(), **kw)
+        # the calls in between get the caller's OWN object (not a copy): a query that edits its argument (a dropped or
+        # shallow defensive copy) changes what the same object weighs afterwards
         calls = [lambda: mass_calc.mod_mass(v, True), lambda: mass_calc.mod_mass(v, False), lambda: _cc2.mod_comp(v),
-                 lambda: pt.comp(a.copy()), lambda: pt.comp_mass(a.copy()), lambda: pt.comp_mass(a.copy(), 'b', 1),
-                 lambda: pt.mass(a.copy(), monoisotopic=not mono), lambda: pt.mass(a.copy(), isotope_mods=['13C', '15N', 'D']),
-                 lambda: pt.mass(a.copy(), isotope_mods=['13C'], use_isotope_on_mods=True),
-                 lambda: pt.mz(a.copy(), charge=2, monoisotopic=not mono),
-                 lambda: pt.fragment(a.copy(), ['b', 'y'], [1], monoisotopic=not mono, return_type='mass')]
+                 lambda: pt.comp(a), lambda: pt.comp_mass(a), lambda: pt.comp_mass(a, 'b', 1),
+                 lambda: pt.mass(a, monoisotopic=not mono), lambda: pt.mass(a, isotope_mods=['13C', '15N', 'D']),
+                 lambda: pt.mass(a, isotope_mods=['13C'], use_isotope_on_mods=True),
+                 lambda: pt.mz(a, charge=2, monoisotopic=not mono),
+                 lambda: pt.fragment(a, ['b', 'y'], [1], monoisotopic=not mono, return_type='mass')]
         if isinstance(v, str) and ':' in v:
             body = v.split(':', 1)[1]
             if v.lower().startswith('formula:'):
@@ -809,6 +811,9 @@ def run(chk):
                 _spoil(f())
             except Exception:  # noqa
                 pass
+        again = pt.mass(a, **kw)
+        if again != first:
+            return f'mass() answered {first!r} first and {again!r} after other calls on the same annotation object (modification {v!r})'
         again = pt.mass(a.copy(), **kw)
         if again != first:
             return f'mass() answered {first!r} first and {again!r} after other calls on the same modification {v!r}'
